@@ -4,6 +4,7 @@ from dataclasses import dataclass, field
 from typing_extensions import List, Any, Optional
 import operator
 
+import sqlalchemy
 import sqlalchemy.inspection
 from sqlalchemy import and_, or_, select, Select, func, literal, not_ as sa_not
 from sqlalchemy.orm import Session
@@ -205,6 +206,12 @@ class OperatorMapper:
         operator_name = operation.__name__
         is_negated = operator_name == "not_contains"
 
+        for operand in (left, right):
+            if isinstance(getattr(operand, "type", None), sqlalchemy.JSON):
+                # a collection of builtins is stored as one JSON text: membership is not a test on that text
+                raise UnsupportedQueryTypeError(
+                    "Membership in a collection that is stored as JSON cannot be translated."
+                )
         if isinstance(left, (list, tuple, set)):
             expression = right.in_(left)
         elif isinstance(right, (list, tuple, set)):
